@@ -93,6 +93,13 @@ func loadAll(repo string) (*World, *Contracts) {
 			}
 		}
 	}
+	w.Impls = w.ifaceRefinements(cs)
+	for fn, irs := range w.Impls {
+		if n := w.Names[fn]; cs.For(n) == nil {
+			fmt.Fprintf(os.Stderr, "gobtvc: %s implements %s, which has postconditions, but has no contract of its own (add one, even empty)\n", n, irs[0].Key)
+			os.Exit(2)
+		}
+	}
 	if bad := w.checkPureIfaces(cs); len(bad) > 0 {
 		for _, b := range bad {
 			fmt.Fprintln(os.Stderr, "gobtvc: contract violated:", b)
